@@ -1837,3 +1837,268 @@ theorem groupNumbers_named {cfg : Cfg} {t : Tables} {nm : String} : ∀ (es : Li
     | succ i => simp at hi; simpa using groupNumbers_named es a' ns' hr i hi
 
 end RegexVerif.Groups
+
+namespace RegexVerif.Groups
+
+/-! ### which numbers the names get (default order) -/
+
+/-- the numbers written explicitly, `(?<k>…)` -/
+def explicitNumbers : List Event → List Nat
+  | [] => []
+  | .numbered k :: es => k :: explicitNumbers es
+  | _ :: es => explicitNumbers es
+
+/-- the distinct names of the pattern in order of first appearance -/
+def namesInOrderFrom (acc : List String) : List Event → List String
+  | [] => acc
+  | .named nm :: es => if nm ∈ acc then namesInOrderFrom acc es else namesInOrderFrom (acc ++ [nm]) es
+  | _ :: es => namesInOrderFrom acc es
+
+def namesInOrder (evs : List Event) : List String := namesInOrderFrom [] evs
+
+/-- "each name takes the least number above the previous one that is not an explicit number" -/
+def ChainRule (lk : String → Option Nat) (E : Nat → Prop) : Nat → List String → Prop
+  | _, [] => True
+  | prev, nm :: rest =>
+    ∃ k, lk nm = some k ∧ prev < k ∧ ¬ E k ∧ (∀ n, prev < n → n < k → E n) ∧ ChainRule lk E k rest
+
+theorem ChainRule.congr {lk lk' : String → Option Nat} {E : Nat → Prop} : ∀ (ns : List String) (prev : Nat),
+    (∀ nm ∈ ns, lk nm = lk' nm) → ChainRule lk E prev ns → ChainRule lk' E prev ns
+  | [], _, _, _ => trivial
+  | nm :: rest, prev, heq, ⟨k, h1, h2, h3, h4, h5⟩ =>
+    ⟨k, by rw [← heq nm (by simp)]; exact h1, h2, h3, h4,
+      ChainRule.congr rest k (fun x hx => heq x (by simp [hx])) h5⟩
+
+theorem assignLoop_chain (E : Nat → Prop) : ∀ (ns : List String) (s : PState) (cn : List (String × Nat)),
+    s.capnames = some cn → CapsInv s → (∀ nm ∈ ns, nm ∈ cn.map Prod.fst) → ns.Nodup →
+    (∀ c, E c → c ∈ s.caps) → (∀ c ∈ s.caps, c < s.autocap ∨ E c) → 1 ≤ s.autocap →
+    ∀ cn', (assignLoop ns s).capnames = some cn' →
+      ChainRule (fun nm => cn'.lookup nm) E (s.autocap - 1) ns
+  | [], _, _, _, _, _, _, _, _, _, _, _ => trivial
+  | name :: rest, s, cn, hcn, hc, hk, hnd, hE1, hE2, hpos, cn', hfin => by
+    rw [assignLoop_cons] at hfin
+    obtain ⟨hc1, hn1, _, hnot, hge, hbetween, hauto, hmem⟩ := assignStep_spec name s hc
+    rw [hcn] at hn1
+    simp only [Option.getD_some] at hn1
+    rw [List.nodup_cons] at hnd
+    have hkeys : (setKey name (nextFree s.caps (s.captop - s.autocap) s.autocap) cn).map Prod.fst = cn.map Prod.fst :=
+      keys_setKey_of_mem (hk name (by simp))
+    have hk' : ∀ nm ∈ rest, nm ∈ (setKey name (nextFree s.caps (s.captop - s.autocap) s.autocap) cn).map Prod.fst :=
+      fun nm hm => by rw [hkeys]; exact hk nm (by simp [hm])
+    obtain ⟨cn'', a1, _, _, _, a5, _, _⟩ := assignLoop_spec rest (assignStep name s) _ hn1 hc1 hk' hnd.2
+    rw [hfin] at a1; injection a1 with a1; subst a1
+    have ih := assignLoop_chain E rest (assignStep name s) _ hn1 hc1 hk' hnd.2
+      (fun c hc' => (hmem c).mpr (Or.inl (hE1 c hc')))
+      (fun c hc' => by
+        rw [hauto]
+        rcases (hmem c).mp hc' with h | h
+        · rcases hE2 c h with h' | h'
+          · exact Or.inl (by omega)
+          · exact Or.inr h'
+        · exact Or.inl (by omega))
+      (by rw [hauto]; omega) cn' hfin
+    rw [hauto] at ih
+    refine ⟨nextFree s.caps (s.captop - s.autocap) s.autocap, ?_, by omega, fun he => hnot (hE1 _ he), ?_, by simpa using ih⟩
+    · show cn'.lookup name = _
+      rw [a5 name hnd.1, lookup_setKey_self]
+    · intro n h1 h2
+      rcases hE2 n (hbetween n (by omega) h2) with h | h
+      · omega
+      · exact h
+
+/-- the pre-scan collects the names in order of first appearance (default order) -/
+theorem scanEvents_namelist {cfg : Cfg} (ho : cfg.ord = false) : ∀ (evs : List Event) {s s' : PState},
+    scanEvents cfg evs s = some s' → NamesInv s → CapsInv s →
+    s'.capnamelist = namesInOrderFrom s.capnamelist evs
+  | [], s, s', h, _, _ => by simp [scanEvents] at h; subst h; rfl
+  | e :: es, s, s', h, hn, hc => by
+    simp only [scanEvents] at h
+    cases h1 : scanEvent cfg s e with
+    | none => simp [h1] at h
+    | some s1 =>
+      simp [h1] at h
+      have hi := scanEvent_inv h1 hc hn
+      have ih := scanEvents_namelist ho es h hi.2 hi.1
+      rw [ih]
+      cases e with
+      | noncap => simp [scanEvent] at h1; subst h1; rfl
+      | numbered0 k => simp [scanEvent] at h1; subst h1; rfl
+      | unnamed =>
+        simp only [scanEvent] at h1
+        split at h1
+        · injection h1 with h1; subst h1; rfl
+        · injection h1 with h1; subst h1; rw [(noteSlot_names _ _).2.1]; rfl
+      | numbered k =>
+        simp only [scanEvent] at h1
+        split at h1
+        · injection h1 with h1; subst h1; rfl
+        · simp only [ho, Bool.false_eq_true, if_false] at h1
+          injection h1 with h1; subst h1; rw [(noteSlot_names _ _).2.1]; rfl
+      | named name =>
+        have h1' : noteName cfg name s = some s1 := by simpa [scanEvent] using h1
+        unfold noteName at h1'
+        simp only [ho, Bool.false_eq_true, if_false] at h1'
+        by_cases hex : ((s.capnames.getD []).lookup name).isSome = true
+        · have hmem : name ∈ s.capnamelist := by rw [← hn.keys]; exact lookup_isSome_iff_mem_keys.mp hex
+          rw [if_pos hex] at h1'
+          split at h1'
+          · exact absurd h1' (by simp)
+          · injection h1' with h1'; subst h1'
+            simp [namesInOrderFrom, hmem]
+        · have hmem : name ∉ s.capnamelist := by
+            rw [← hn.keys]; exact fun hm => hex (lookup_isSome_iff_mem_keys.mpr hm)
+          rw [if_neg hex] at h1'
+          injection h1' with h1'; subst h1'
+          simp [namesInOrderFrom, hmem]
+
+/-- what the slot table holds after the pre-scan (default order): everything below `autocap`,
+    plus the explicit numbers -/
+theorem scanEvents_explicit {cfg : Cfg} (ho : cfg.ord = false) : ∀ (evs : List Event) (P : Nat → Prop) {s s' : PState},
+    scanEvents cfg evs s = some s' → (∀ c ∈ s.caps, c < s.autocap ∨ P c) →
+    (∀ c ∈ s'.caps, c < s'.autocap ∨ P c ∨ c ∈ explicitNumbers evs) ∧
+    (cfg.ecma = false → ∀ k ∈ explicitNumbers evs, k ∈ s'.caps) ∧ (∀ c ∈ s.caps, c ∈ s'.caps)
+  | [], P, s, s', h, hP => by
+    simp [scanEvents] at h; subst h
+    exact ⟨fun c hc => by rcases hP c hc with h | h <;> simp [h], by simp [explicitNumbers], fun c hc => hc⟩
+  | e :: es, P, s, s', h, hP => by
+    simp only [scanEvents] at h
+    cases h1 : scanEvent cfg s e with
+    | none => simp [h1] at h
+    | some s1 =>
+      simp [h1] at h
+      have hname : ∀ name, noteName cfg name s = some s1 → s1.caps = s.caps ∧ s1.autocap = s.autocap := by
+        intro name hn
+        unfold noteName at hn
+        simp only [ho, Bool.false_eq_true, if_false] at hn
+        split at hn
+        · split at hn
+          · exact absurd hn (by simp)
+          · injection hn with hn; subst hn; exact ⟨rfl, rfl⟩
+        · injection hn with hn; subst hn; exact ⟨rfl, rfl⟩
+      -- events that leave `caps`/`autocap` alone
+      have same : s1.caps = s.caps → s1.autocap = s.autocap → explicitNumbers (e :: es) = explicitNumbers es →
+          (∀ c ∈ s'.caps, c < s'.autocap ∨ P c ∨ c ∈ explicitNumbers (e :: es)) ∧
+          (cfg.ecma = false → ∀ k ∈ explicitNumbers (e :: es), k ∈ s'.caps) ∧ (∀ c ∈ s.caps, c ∈ s'.caps) := by
+        intro hc1 ha1 hex
+        have ih := scanEvents_explicit ho es P h (by rw [hc1, ha1]; exact hP)
+        rw [hex]; rw [hc1] at ih; exact ih
+      cases e with
+      | noncap => simp [scanEvent] at h1; subst h1; exact same rfl rfl rfl
+      | numbered0 k => simp [scanEvent] at h1; subst h1; exact same rfl rfl rfl
+      | named name =>
+        have := hname name (by simpa [scanEvent] using h1)
+        exact same this.1 this.2 rfl
+      | unnamed =>
+        simp only [scanEvent] at h1
+        by_cases hx : cfg.explicitCapture = true
+        · rw [if_pos hx] at h1; injection h1 with h1; subst h1; exact same rfl rfl rfl
+        · rw [if_neg hx] at h1; injection h1 with h1; subst h1
+          have ih := scanEvents_explicit ho es P h (by
+            intro c hc
+            rw [(noteSlot_names _ _).2.2]
+            rcases noteSlot_caps_mem.mp hc with h' | h'
+            · rcases hP c h' with h'' | h''
+              · exact Or.inl (by simp; omega)
+              · exact Or.inr h''
+            · exact Or.inl (by simp; omega))
+          exact ⟨ih.1, ih.2.1, fun c hc => ih.2.2 c (noteSlot_caps_mem.mpr (Or.inl hc))⟩
+      | numbered k =>
+        simp only [scanEvent] at h1
+        by_cases he : cfg.ecma = true
+        · rw [if_pos he] at h1; injection h1 with h1; subst h1
+          have ih := scanEvents_explicit ho es P h hP
+          refine ⟨fun c hc => ?_, fun hef => by simp [hef] at he, ih.2.2⟩
+          rcases ih.1 c hc with h' | h' | h'
+          · exact Or.inl h'
+          · exact Or.inr (Or.inl h')
+          · exact Or.inr (Or.inr (by simp [explicitNumbers, h']))
+        · rw [if_neg he] at h1
+          simp only [ho, Bool.false_eq_true, if_false] at h1
+          injection h1 with h1; subst h1
+          have ih := scanEvents_explicit ho es (fun c => P c ∨ c = k) h (by
+            intro c hc
+            rw [(noteSlot_names _ _).2.2]
+            rcases noteSlot_caps_mem.mp hc with h' | h'
+            · rcases hP c h' with h'' | h''
+              · exact Or.inl h''
+              · exact Or.inr (Or.inl h'')
+            · exact Or.inr (Or.inr h'))
+          refine ⟨fun c hc => ?_, fun _ j hj => ?_, fun c hc => ih.2.2 c (noteSlot_caps_mem.mpr (Or.inl hc))⟩
+          · rcases ih.1 c hc with h' | (h' | h') | h'
+            · exact Or.inl h'
+            · exact Or.inr (Or.inl h')
+            · exact Or.inr (Or.inr (by simp [explicitNumbers, h']))
+            · exact Or.inr (Or.inr (by simp [explicitNumbers, h']))
+          · simp only [explicitNumbers, List.mem_cons] at hj
+            rcases hj with rfl | hj
+            · exact ih.2.2 _ (noteSlot_caps_mem.mpr (Or.inr rfl))
+            · exact ih.2.1 (by simpa using he) j hj
+
+end RegexVerif.Groups
+
+namespace RegexVerif.Groups
+
+theorem assign_named_rule {evs : List Event} {cfg : Cfg} {m : Maps} (h : assign evs cfg = some m)
+    (ho : cfg.ord = false) (hg : GoodNames evs) :
+    ChainRule (groupNumberFromName m) (fun c => c ∈ explicitNumbers evs)
+      (if cfg.explicitCapture then 0 else countUnnamed evs) (namesInOrder evs) := by
+  obtain ⟨t, ht, hmt, _, _, _⟩ := assign_tables h
+  have hcn : m.capnames = t.capnames := by rw [← hmt]; rfl
+  have hef : cfg.ecma = false := by
+    cases he : cfg.ecma with
+    | false => rfl
+    | true => simp [Cfg.ord, he] at ho
+  unfold countCaptures at ht
+  cases hsc : scanEvents cfg evs initState with
+  | none => simp [hsc] at ht
+  | some s =>
+    simp [hsc, ho] at ht
+    obtain ⟨hc, hn⟩ := scanEvents_inv evs hsc capsInv_init namesInv_init
+    have hlist : s.capnamelist = namesInOrder evs := scanEvents_namelist ho evs hsc namesInv_init capsInv_init
+    have hauto := scanEvents_autocap ho evs hsc
+    have hexp := scanEvents_explicit ho evs (fun _ => False) hsc (by intro c hc; simp [initState] at hc ⊢; omega)
+    have hgood : ∀ nm ∈ s.capnamelist, nm ≠ "" ∧ ∀ k : Nat, nm ≠ itoa k := by
+      intro nm hnm
+      rcases scanEvents_names evs hsc nm hnm with h0 | h1 | ⟨k, _, _, hko⟩
+      · simp [initState] at h0
+      · exact hg nm h1
+      · simp [ho] at hko
+    rw [← hlist]
+    cases hcn0 : s.capnames with
+    | none =>
+      have : s.capnamelist = [] := by have := hn.keys; simpa [hcn0] using this.symm
+      rw [this]; trivial
+    | some cn0 =>
+      have hkeys : cn0.map Prod.fst = s.capnamelist := by have := hn.keys; simpa [hcn0] using this
+      obtain ⟨cn', a1, a2, a3, a4, _, a6, _⟩ := assignLoop_spec s.capnamelist s cn0 hcn0 hc
+        (fun nm hm => hkeys ▸ hm) hn.nodup
+      have chain := assignLoop_chain (fun c => c ∈ explicitNumbers evs) s.capnamelist s cn0 hcn0 hc
+        (fun nm hm => hkeys ▸ hm) hn.nodup (fun c hc' => hexp.2.1 hef c hc')
+        (fun c hc' => by rcases hexp.1 c hc' with h' | h' | h'
+                         · exact Or.inl h'
+                         · exact absurd h' id
+                         · exact Or.inr h')
+        (by rw [hauto]; simp [initState]) cn' a1
+      have hprev : s.autocap - 1 = (if cfg.explicitCapture then 0 else countUnnamed evs) := by
+        rw [hauto]; simp [initState]
+      rw [hprev] at chain
+      have hn' : NamesInv (assignLoop s.capnamelist s) :=
+        ⟨by rw [a1, a3]; simp [a4, hkeys], by rw [a3]; exact hn.nodup⟩
+      have ht' : t = finishNames (assignLoop s.capnamelist s) := by
+        rw [← ht]; unfold assignNameSlots; simp [hcn0]
+      obtain ⟨_, _, _, f4⟩ := finishNames_inv (assignLoop s.capnamelist s) a2 hn' (by rw [a3]; exact hgood)
+        (fun cn hcn' nm hnm => by
+          rw [a1] at hcn'; injection hcn' with hcn'; subst hcn'
+          exact a6 nm (by rw [a3] at hnm; exact hnm))
+      refine ChainRule.congr s.capnamelist _ ?_ chain
+      intro nm hnm
+      obtain ⟨k, hk, _⟩ := a6 nm hnm
+      have hb := f4 cn' nm a1 (by rw [a3]; exact hnm)
+      rw [← ht', ← hcn, hk] at hb
+      show cn'.lookup nm = groupNumberFromName m nm
+      unfold groupNumberFromName
+      cases hmc : m.capnames with
+      | none => simp [hmc] at hb
+      | some c => simp [hmc] at hb; simp [hb, hk]
+
+end RegexVerif.Groups
